@@ -126,11 +126,11 @@ def c04(tier):
 def c06(tier):
     run = P.Run("C06", tier, ["C06_"])
     s = run.seed
-    defs = F.curated_ctx() + F.curated() + F.random_family(2300 + s, sizes(tier, 120, 1200), nmax=sizes(tier, 4, 5), publish=True)
-    run.add_mc(F.curated_ctx() + F.random_family(3300 + s, sizes(tier, 30, 300), nmax=4, publish=True), ["C06"], replay=True)
+    defs = F.curated_ctx() + F.curated() + F.random_family(2300 + s, sizes(tier, 120, 600), nmax=4, publish=True)
+    run.add_mc(F.curated_ctx() + F.random_family(3300 + s, sizes(tier, 30, 150), nmax=4, publish=True), ["C06"], replay=True)
     # the intended design (open findings S1 and S2 repaired in the model, no known signatures): the context clauses
     # must hold outright there - they are jointly satisfiable and not an artefact of the code's bookkeeping
-    run.add_mc(F.curated_ctx() + F.random_family(3300 + s, sizes(tier, 30, 300), nmax=4, publish=True), ["C06", "C01"],
+    run.add_mc(F.curated_ctx() + F.random_family(3300 + s, sizes(tier, 30, 150), nmax=4, publish=True), ["C06", "C01"],
                known=[], replay=False, intended=True)
     run.add_jobs(jobs_for(defs, {"max_nodes": sizes(tier, 1500, 8000)}, s, ("yaql", "jinja"), tok="visit"))
     run.add_jobs(jobs_for(F.curated_ctx(), {"lazy": True, "max_nodes": sizes(tier, 1500, 8000)}, s, tok="visit"))
@@ -146,12 +146,12 @@ def c06(tier):
 def c07(tier):
     run = P.Run("C07", tier, ["C07_"])
     s = run.seed
-    defs = F.curated() + F.random_family(1400 + s, sizes(tier, 120, 1200), nmax=sizes(tier, 4, 5), fates_f=0.8)
+    defs = F.curated() + F.random_family(1400 + s, sizes(tier, 120, 600), nmax=4, fates_f=0.8)
     defs = [d for d in defs if any(t["join"] != 0 for t in d["tasks"].values())]
-    run.add_mc(defs[:sizes(tier, 30, 300)], ["C07"], max_pause=1, replay=(tier != "quick"))
+    run.add_mc(defs[:sizes(tier, 30, 150)], ["C07"], max_pause=1, replay=(tier != "quick"))
     # the intended design (open finding S2 repaired in the model, no known signatures): the join and token
     # clauses must hold outright - they are satisfiable and not vacuously strict
-    run.add_mc(defs[:sizes(tier, 30, 300)], ["C07", "C01", "C03", "C02"], max_pause=1, known=[], replay=False, intended=True)
+    run.add_mc(defs[:sizes(tier, 30, 150)], ["C07", "C01", "C03", "C02"], max_pause=1, known=[], replay=False, intended=True)
     run.add_jobs(jobs_for(defs, {"max_nodes": sizes(tier, 2000, 8000)}, s))
     run.add_jobs(jobs_for(defs[:sizes(tier, 25, 400)], {"pause": 1, "cancel": 1, "max_nodes": sizes(tier, 1200, 5000)}, s))
     return run.finish("model_checking",
@@ -193,12 +193,12 @@ def c09(tier):
     from . import groups as G
     run = P.Run("C09", tier, ["C09_"])
     s = run.seed
-    defs = F.curated() + F.random_family(1600 + s, sizes(tier, 60, 600), nmax=4, publish=True)
-    run.add_mc(F.curated() + F.random_family(3100 + s, sizes(tier, 30, 300), nmax=4), ["C09"], max_pause=1,
+    defs = F.curated() + F.random_family(1600 + s, sizes(tier, 60, 250), nmax=4, publish=True)
+    run.add_mc(F.curated() + F.random_family(3100 + s, sizes(tier, 30, 120), nmax=4), ["C09"], max_pause=1,
                replay=(tier != "quick"))
     run.add_jobs(jobs_for(defs, {"pause": 1, "max_nodes": sizes(tier, 1500, 6000)}, s, ("yaql", "jinja")))
     run.add_jobs(jobs_for(F.curated_items() + F.curated_retry(), {"pause": 1, "max_nodes": sizes(tier, 1000, 6000)}, s))
-    gs, infeasible = G.pause_groups(run.results, sizes(tier, 40, 400), random.Random(s))
+    gs, infeasible = G.pause_groups(run.results, sizes(tier, 40, 120), random.Random(s))
     run.extra["twin_infeasible"] = infeasible
     run.add_groups(gs)
     return run.finish("model_checking",
@@ -212,8 +212,8 @@ def c09(tier):
 def c10(tier):
     run = P.Run("C10", tier, ["C10_"])
     s = run.seed
-    defs = F.curated() + F.random_family(1700 + s, sizes(tier, 60, 600), nmax=4, publish=True)
-    run.add_mc(F.curated() + F.random_family(3200 + s, sizes(tier, 30, 300), nmax=4), ["C10"], max_pause=1, max_cancel=1,
+    defs = F.curated() + F.random_family(1700 + s, sizes(tier, 60, 250), nmax=4, publish=True)
+    run.add_mc(F.curated() + F.random_family(3200 + s, sizes(tier, 30, 120), nmax=4), ["C10"], max_pause=1, max_cancel=1,
                replay=(tier != "quick"))
     run.add_jobs(jobs_for(defs, {"pause": 1, "cancel": 1, "resume_early": tier != "quick",
                                  "max_nodes": sizes(tier, 1500, 6000)}, s))
@@ -386,8 +386,8 @@ def c15(tier):
     run = P.Run("C15", tier, ["C15_"])
     s = run.seed
     # soundness half: accepted definitions are conducted under many histories without an internal error
-    defs = F.curated() + F.random_family(2500 + s, sizes(tier, 60, 600), nmax=4, publish=True)
-    defs += F.curated_items() + F.curated_retry() + F.curated_ctx() + F.graph_family(2600 + s, sizes(tier, 40, 400), nmax=5)
+    defs = F.curated() + F.random_family(2500 + s, sizes(tier, 60, 250), nmax=4, publish=True)
+    defs += F.curated_items() + F.curated_retry() + F.curated_ctx() + F.graph_family(2600 + s, sizes(tier, 40, 150), nmax=5)
     run.add_jobs(jobs_for(defs, {"pause": 1, "cancel": 1, "sample": sizes(tier, 3, 5), "max_nodes": sizes(tier, 600, 3000)},
                           s, ("yaql", "jinja"), tok="visit"))
     run.add_jobs(jobs_for(F.curated() + F.curated_items()[:8], {"rerun": 1, "rerun_tasks": True, "sample": 3,
@@ -398,13 +398,13 @@ def c15(tier):
     run.extra["accepted_runtime_faulty"] = len(rt)
     run.add_jobs(jobs_for(rt, {"pause": 1, "cancel": 1, "sample": sizes(tier, 4, 6), "max_nodes": sizes(tier, 500, 3000)}, s))
     # completeness half: single-fault mutants enumerated by TLC (spec/Inspect.tla)
-    hosts = F.curated() + F.curated_items()[:4] + F.curated_retry()[:4] + F.graph_family(2700 + s, sizes(tier, 10, 120), nmax=4)
+    hosts = F.curated() + F.curated_items()[:4] + F.curated_retry()[:4] + F.graph_family(2700 + s, sizes(tier, 10, 50), nmax=4)
     faults, res = I.enumerate_faults(hosts, run.tmp)
     run.mc_states += res["distinct"]
     run.mc_transitions += res["states"]
     if res["rc"] != 0 or not faults:
         run.machinery.append("Inspect tlc rc=%s\n%s" % (res["rc"], res["out"][-2000:]))
-    gs, errs = I.inspect_groups(hosts, faults, seed=s, cap=sizes(tier, 4000, 60000))
+    gs, errs = I.inspect_groups(hosts, faults, seed=s, cap=sizes(tier, 4000, 20000))
     for e in errs[:3]:
         run.machinery.append("inspect harness: " + e["error"][:1500])
     run.extra["faults_enumerated"] = len(faults)
